@@ -67,6 +67,8 @@ def run_plan(case, R):
                 try:
                     plan_ = DHTV(stft_size=n, segment_start=start, segment_width=width, segment_shift=shift, main_iterations=3, sub_iterations=2).alignment_plan
                 except Exception as e:
+                    if not instr.is_library_exception(e):
+                        raise
                     R.fail('C16.plan', 'plan/raised', f'alignment_plan raised {type(e).__name__} for a valid configuration', stft_size=n, start=start, width=width, shift=shift)
                     continue
                 cov = np.zeros(F, dtype=int)
@@ -158,6 +160,8 @@ def run_planted(case, R):
         mapping = al.calculate_mapping(mask)
         out = al(mask)
     except Exception as e:
+        if not instr.is_library_exception(e):
+            raise
         R.fail('C16.consistent', f'planted/raised/{case["aligner"]}', f'{type(e).__name__}: {str(e)[:100]}', **info)
         return
     if not conds.is_perm_columns(mapping):
@@ -174,6 +178,8 @@ def run_planted(case, R):
         o2 = al(cons)
         R.check('C16.identity', bool((m2 == np.arange(K)[:, None]).all()) and np.array_equal(o2, cons), f'identity/{case["aligner"]}/{case["metric"]}', 'an already consistent mask is not returned unchanged (identity mapping)', **info)
     except Exception as e:
+        if not instr.is_library_exception(e):
+            raise
         R.fail('C16.identity', f'identity/raised/{case["aligner"]}', f'{type(e).__name__}: {str(e)[:100]}', **info)
     if not (field == field[:, :1]).all():
         R.mark_nontrivial('planted', case['aligner'], case.get('plan'), case['metric'], K, F)
